@@ -24,6 +24,7 @@ ALPHABET = ["'", '"', "a", "s", " ", ".", "\n", "{%", "%}", "<!--", "-->", "—"
 SINGLE, DOUBLE = "‘’", "“”"
 _TAGS = re.compile(r"\{%.*?%\}|\{\{.*?\}\}|\{#.*?#\}|<!--.*?-->", re.S)
 _PARA = re.compile(r"\n\s*\n")
+_WSRUN = re.compile(r"\s+")
 
 
 def char_rule(a: str, b: str):
@@ -66,6 +67,11 @@ class C08(DocProp):
         for r, c in self.doc_cases(tier, seed, shard, nshards):
             c["opts"] = [rand_opts(r), rand_opts(r), rand_opts(r, widths=[0, 30, 88])]
             yield c
+            if r.random() < 0.1:
+                # sub-workload of the listed finding KF-C08-shortcut-reference-quote-label (G-doc labels hold no quotes)
+                lab = r.choice(["bob's page", "the \"big\" one", "it's"])
+                yield {"kind": "text", "text": f"See [{lab}] for more, and [other text][{lab}] too.\n\n[{lab}]: http://x.y/z\n", "feats": ["quote-label"],
+                       "profile": "quote-label", "opts": [rand_opts(r, widths=[0, 30, 88])]}
 
     def setup_worker(self, col, tier):
         from flowmark.typography.smartquotes import smart_quotes
@@ -94,6 +100,17 @@ class C08(DocProp):
             if on != off:
                 col.distinct(case.get("seed", text), opts_key(o))
             bad = char_rule(off, on)
+            if bad and bad[0] == "length":
+                # listed mechanism, checked: a shortcut reference '[label]' whose label holds a quote is respelled '[text][label]'
+                # because the converted text no longer equals the label. Undoing exactly that must leave a lawful difference.
+                unq = lambda t: t.translate({0x2018: "'", 0x2019: "'", 0x201c: '"', 0x201d: '"'})  # noqa: E731
+                undone = re.sub(r"\[([^\]\[]*[‘’“”][^\]\[]*)\]\[([^\]\[]*)\]",
+                                lambda m: "[" + m.group(1) + "]" if _WSRUN.sub(" ", unq(m.group(1))) == m.group(2) else m.group(0), on)
+                # (the longer line may also wrap elsewhere: compare modulo line breaks)
+                if undone != on and char_rule(_WSRUN.sub(" ", off), _WSRUN.sub(" ", undone)) is None:
+                    col.violation("diff", "C08/diff/length-changed/shortcut-reference-with-quote-in-label", sub,
+                                  {"off": off[:160], "on": on[:160]})
+                    continue
             if bad:
                 col.violation("diff", f"C08/diff/{bad[0]}-changed", sub,
                               {"what": bad, "off": off[max(0, bad[1] - 30):bad[1] + 30] if bad[0] == "char" else None,
